@@ -12,7 +12,7 @@ EXPLANATION = (
     "(decoder / Default); nothing else writes it. R3 (osu!): the one-shot counting closure and the gradual increment function "
     "count every object kind with exactly one of n_circles/n_sliders/n_spinners (+1) and max_combo (+1), and the two are "
     "identical arm by arm. R4: Difficulty::passed_objects(n) records Some(n) for every n and get_passed_objects returns exactly that n "
-    "(usize::MAX when unset) — the structural half of 'counted = min(n, total)'. R5 (mania): ManiaObject::new (private helpers inlined) adds exactly 1 to n_hold_notes in the Slider, Spinner and Hold arms of its match on the object kind, nothing in the Circle arm, and no other condition (a duration test, say) decides a count. All other counting clauses (min(n,total), monotone, caps, sums) are "
+    "(usize::MAX when unset) — the structural half of 'counted = min(n, total)'. R5 (mania): ManiaObject::new (private helpers inlined) adds exactly 1 to n_hold_notes in the Slider, Spinner and Hold arms of its match on the object kind, nothing in the Circle arm, and no other condition (a duration test, say) decides a count. R6 (taiko): in the one-shot create_difficulty_objects the max_combo / n_diff_objects bookkeeping sees every object the iterator yields: it rides as an inspect() / map() adaptor in front of every truncating adaptor, or every object taken with next() passes a count before the function returns or takes the next one (a private helper that receives the counter is judged instead). All other counting clauses (min(n,total), monotone, caps, sums) are "
     "arithmetic over runtime values: NOT decided.")
 
 BM = 'model::beatmap::Beatmap'
@@ -163,6 +163,7 @@ def run(ctx):
     r3(ctx, F)
     r4(ctx, F)
     r5(ctx, F)
+    r6_taiko(ctx, F)
     ctx.not_decided('all other counting clauses: n_circles+n_sliders+n_spinners = objects considered, taiko max combo = hits, mania counts, '
                     'catch fruit counts, min(n,total), monotonicity in n, saturation above the total')
 
@@ -491,3 +492,124 @@ def r5(ctx, F):
     ctx.require(not bad, 'C14-R5', 'mania:n_hold_notes', 'ManiaObject::new counts one hold note for each of %s and none for Circle, decided by the object kind alone' % sorted(want), fn0.where(),
                 bad='ManiaObject::new: %s — n_hold_notes no longer equals the number of long notes of the map (a long note of zero length, or a kind, is miscounted) in the one-shot, '
                     'partial and gradual calculation alike' % '; '.join(bad))
+
+
+# ---- R6 (taiko): the combo / object counter of the one-shot calculation sees every object the source iterator yields
+TRUNC_ADAPTORS = {'skip', 'take', 'step_by', 'filter', 'filter_map', 'skip_while', 'take_while', 'map_while', 'peekable_next_if'}
+
+
+def _counts_every_item(F, f, depth=0):
+    """(verdict, explanation) for function f that owns a `max_combo: &mut u32` parameter"""
+    names = f.local_names()
+    mc = [l for l, nme in names.items() if nme == 'max_combo']
+    if not mc:
+        return None, 'no max_combo variable'
+    mc = mc[0]
+    P = prov.prov_of(f)
+    defs = {}
+    for bi, si, s in f.assigns():
+        if 'proj' not in s['p']:
+            defs.setdefault(s['p']['l'], []).append(s['rv'])
+
+    def refers(l, seen=()):
+        """local l is the counter or a (re)borrow / copy of it"""
+        if l == mc:
+            return True
+        if l in seen:
+            return False
+        for rv in defs.get(l, ()):
+            if rv['k'] == 'ref' and refers(rv['p']['l'], seen + (l,)):
+                return True
+            if rv['k'] == 'use' and rv['op']['k'] in ('copy', 'move') and refers(rv['op']['p']['l'], seen + (l,)):
+                return True
+        return False
+
+    def mentions_mc(v):
+        return mc <= f.argc and any(x == ('param', mc) for x in prov.walk(v, limit=80))
+    counting = {}
+    for bi, si, s in f.assigns():
+        rv = s['rv']
+        if rv['k'] == 'agg' and rv.get('ak') == 'closure' and any(
+                (o['k'] in ('copy', 'move') and refers(o['p']['l'])) or mentions_mc(P.operand(o, bi, si)) for o in rv['ops']):
+            counting[rv['closure']] = s['p']['l']
+    # (a) the counting closure rides on the iterator itself, in front of every truncating adaptor
+    for bi, t in f.calls():
+        if t['func'].get('name') in ('inspect', 'map') and len(t['args']) == 2:
+            a = P.call_args(bi)
+            cl = prov.strip(a[1])
+            if cl[0] == 'agg' and cl[1] == 'closure' and cl[2] in counting:
+                chain = [x[1].get('name') for x in prov.walk(a[0], limit=200) if x[0] == 'call']
+                cut = [c for c in chain if c in TRUNC_ADAPTORS]
+                if not cut:
+                    return True, 'the counting closure is an %s() adaptor on the untruncated object iterator' % t['func'].get('name')
+                return False, 'the counting closure is attached with %s() behind %s: the objects cut off there are never counted' % (t['func'].get('name'), cut)
+    # (c) handed on to a private helper: judge that helper
+    if depth < 1:
+        for bi, t in f.calls():
+            if t['func'].get('local') and any(mentions_mc(x) for x in P.call_args(bi)):
+                g = F.fn(t['func'].get('path') or '')
+                if g is not None and g.kind != 'Closure' and not g.impl_trait:
+                    r = _counts_every_item(F, g, depth + 1)
+                    if r[0] is not None:
+                        return r[0], '%s: %s' % (g.path.split('::')[-1], r[1])
+    # (b) explicit counting: after every `next()` that yields an object, a count is made before the function returns or asks for the next one
+    count_blocks = set()
+    for bi, t in f.calls():
+        fp = t['func'].get('path') or ''
+        if fp in counting:
+            count_blocks.add(bi)
+        elif t['func'].get('name') in ('call', 'call_mut', 'call_once') and t['args']:
+            a0 = P.call_args(bi)[0]
+            if any(x[0] == 'agg' and x[1] == 'closure' and x[2] in counting for x in prov.walk(a0, limit=40)):
+                count_blocks.add(bi)
+    if not counting:
+        # direct bookkeeping: the blocks that test or update *max_combo
+        for bi, b in enumerate(f.blocks):
+            if b.get('cleanup'):
+                continue
+            txt = str(b['s']) + str(b['t'].get('discr', ''))
+            if mc <= f.argc and ("'l': %d, 'proj': ['*']" % mc) in txt:
+                count_blocks.add(bi)
+    nexts = [(bi, t) for bi, t in f.calls() if t['func'].get('name') == 'next' and t.get('dest') and 'TaikoObject' in (f.locals[t['dest']['l']].get('s') or '')
+             and (f.locals[t['dest']['l']].get('s') or '').startswith('std::option::Option<')]
+    if not nexts or not count_blocks:
+        return None, 'no explicit next() on the object iterator / no counting site (%d, %d)' % (len(nexts), len(count_blocks))
+    import arms
+    for bN, t in nexts:
+        # edges on which this next() is known to have yielded nothing
+        none_edges = set()
+        for sb, info in arms.enum_switches(f):
+            if any(x[0] == 'call' and len(x) > 3 and x[3] == (f.path, bN) for x in prov.walk(info['cond'], limit=200)):
+                for lab, tgt in info['edges']:
+                    if lab == 'None':
+                        none_edges.add((sb, tgt))
+        start = t.get('target')
+        seen, todo, escaped = set(), [start] if start is not None else [], start is None
+        while todo and not escaped:
+            b = todo.pop()
+            if b in seen or b in count_blocks:
+                continue
+            seen.add(b)
+            if f.blocks[b]['t']['k'] == 'return':
+                escaped = True
+                break
+            for nb in f.cfg.succ[b]:
+                if (b, nb) not in none_edges and not f.blocks[nb].get('cleanup'):
+                    todo.append(nb)
+        if escaped:
+            return False, 'an object taken from the iterator at line %s can reach a return without being counted (a count placed behind an early exit)' % t.get('ln')
+    return True, 'every object taken with next() is counted before the function returns or takes the next one (%d next() sites)' % len(nexts)
+
+
+def r6_taiko(ctx, F):
+    f = F.fn('taiko::difficulty::DifficultyValues::create_difficulty_objects')
+    if f is None:
+        ctx.violation('C14-R6', 'anchor-missing:create_difficulty_objects', 'taiko::difficulty::DifficultyValues::create_difficulty_objects not found')
+        return
+    ctx.saw(f)
+    ok, why = _counts_every_item(F, f)
+    if ok is None:
+        ctx.violation('C14-R6', 'taiko:count-shape', 'taiko create_difficulty_objects: cannot tell how max_combo / n_diff_objects are counted (%s)' % why, f.where())
+        return
+    ctx.require(ok, 'C14-R6', 'taiko:count-every-object', 'taiko one-shot max_combo / n_diff_objects: %s' % why, f.where(),
+                bad='taiko create_difficulty_objects: %s — max combo no longer equals the number of hits for the maps that take that exit (e.g. a one-object map)' % why)
